@@ -182,3 +182,320 @@ def collected_components(ctx, quals: Iterable[str], sink_prefixes: Tuple[str, ..
                 ctx.bad(construct, f"`{', '.join(missing)}` is unpacked but never added to the collected set: {why}", f.loc(lp))
             else:
                 ctx.ok(construct, f.loc(lp), components=names)
+
+
+# --------------------------------------------------------------------------- delegation with a filter
+def delegate(ctx, rule_fn, keep):
+    """run another property's rule inside the current rule and keep only the instances `keep(construct)` accepts"""
+    before = len(ctx.instances)
+    rule_fn(ctx)
+    kept = [i for i in ctx.instances[before:] if keep(i.construct)]
+    dropped = {i.construct for i in ctx.instances[before:]} - {i.construct for i in kept}
+    ctx.instances[before:] = kept
+    ctx.findings[:] = [f for f in ctx.findings if not (f.rule == ctx._rule and f.construct in dropped)]
+
+
+# --------------------------------------------------------------------------- numeric bases
+def no_autodetected_base(ctx, modnames: Iterable[str], why: str):
+    """Every two-argument int(text, base) in the given modules names its base (10, 16, a type->base table lookup or a
+    local holding one): base 0 lets the *spelling* pick the base, but a hex option's value is base 16 whether or not it
+    carries the 0x prefix (set_value / the loader accept `1f` and `10` for a hex option) and an int value may have leading
+    zeros, which base 0 rejects."""
+    repo = ctx.repo
+    for m in modnames:
+        for f in repo.funcs_in(m):
+            k = 0
+            for n in own_nodes(repo, f):
+                if isinstance(n, ast.Call) and isinstance(n.func, ast.Name) and n.func.id == "int" and len(n.args) + len(n.keywords) == 2:
+                    b = n.args[1] if len(n.args) == 2 else n.keywords[0].value
+                    k += 1
+                    construct = f"{f.short}/int({ast.unparse(n.args[0])[:30]}, <base>) #{k} names its base"
+                    if isinstance(b, ast.Constant) and b.value == 0:
+                        ctx.bad(construct, f"`{ast.unparse(n)}` lets the spelling pick the base: {why}", f.loc(n))
+                    else:
+                        ctx.ok(construct, f.loc(n), base=ast.unparse(b), nontrivial=False)
+
+
+# --------------------------------------------------------------------------- record text is cut on "\n" only
+SPLITLINES_EXEMPT = {
+    # (function short name, receiver text): reason
+    ("MenuNode._sym_choice_node_str", "self.help"): "help text re-indented for display; not a record format",
+    ("MenuNode.custom_str", "self.help"): "help text re-indented for display; not a record format",
+    ("_shell_fn", "stderr"): "output of a $(shell ...) command, joined again for an error message",
+    ("_shell_fn", "stdout"): "output of a $(shell ...) command: universal newlines folded into blanks by design",
+}
+
+
+def no_splitlines(ctx, modnames: Iterable[str], why: str):
+    """Line-oriented text (sdkconfig records, auto.conf, Kconfig source lines, rename files) is cut into lines by file
+    iteration or split("\\n") - never by str.splitlines(), which also cuts on \\x0b \\x0c \\x1c-\\x1e \\x85 U+2028 U+2029
+    (all of which may occur inside a quoted string value, a prompt or a help text and are written verbatim)."""
+    repo = ctx.repo
+    for m in modnames:
+        for f in repo.funcs_in(m):
+            calls = [n for n in own_nodes(repo, f) if isinstance(n, ast.Call) and isinstance(n.func, ast.Attribute) and n.func.attr == "splitlines"]
+            for n in calls:
+                recv = ast.unparse(n.func.value)
+                construct = f"{f.short}/`{recv[:40]}` is not cut with str.splitlines()"
+                if (f.short, recv) in SPLITLINES_EXEMPT:
+                    ctx.exempt(construct, SPLITLINES_EXEMPT[(f.short, recv)], f.loc(n))
+                else:
+                    ctx.bad(construct, f"`{ast.unparse(n)[:60]}`: {why}", f.loc(n))
+
+
+# --------------------------------------------------------------------------- hex prefix tests cover both spellings
+def hex_prefix_both_cases(ctx, modnames: Iterable[str]):
+    """Every test for the hexadecimal prefix accepts `0x` and `0X`: values are validated with int(v, 16), which takes
+    either, so an emitter / input filter that only knows the lower-case prefix prepends a second prefix to `0XAB`."""
+    repo = ctx.repo
+    for m in modnames:
+        for f in repo.funcs_in(m):
+            k = 0
+            for n in own_nodes(repo, f):
+                if not (isinstance(n, ast.Call) and isinstance(n.func, ast.Attribute) and n.func.attr == "startswith" and n.args):
+                    continue
+                a = n.args[0]
+                lits = [e.value for e in (a.elts if isinstance(a, ast.Tuple) else [a]) if isinstance(e, ast.Constant) and isinstance(e.value, str)]
+                if not any(x.lower() == "0x" for x in lits):
+                    continue
+                k += 1
+                construct = f"{f.short}/hex prefix test #{k} accepts 0x and 0X"
+                if {"0x", "0X"} <= set(lits):
+                    ctx.ok(construct, f.loc(n), nontrivial=False)
+                else:
+                    ctx.bad(construct, f"`{ast.unparse(n)}` knows one spelling only: `0XAB` (accepted by the validators) is taken for prefix-less", f.loc(n))
+
+
+# --------------------------------------------------------------------------- push / pop balance
+def stack_balance(ctx, quals: Iterable[str]):
+    """In the given functions every `<x>_stack.append(..)` has its `.pop()` at the same loop nesting (and vice versa): a push
+    hoisted out of the loop whose body pops (or the reverse) leaves the stack one entry short / long per extra iteration."""
+    repo = ctx.repo
+    for q in quals:
+        f = repo.func(q)
+        ctx.analysed(q)
+        ops: Dict[str, Dict[str, List[Optional[ast.AST]]]] = {}
+        for n in own_nodes(repo, f):
+            if isinstance(n, ast.Call) and isinstance(n.func, ast.Attribute) and n.func.attr in ("append", "pop") \
+                    and ast.unparse(n.func.value).endswith("_stack"):
+                loop = None
+                p = repo.parent(n)
+                while p is not None and p is not f.node:
+                    if isinstance(p, (ast.For, ast.While)):
+                        loop = p
+                        break
+                    p = repo.parent(p)
+                ops.setdefault(ast.unparse(n.func.value), {"append": [], "pop": []})[n.func.attr].append(loop)
+        for name, d in sorted(ops.items()):
+            if not d["append"] or not d["pop"]:
+                continue  # pushed here, popped by a sibling method: not a per-function pairing
+            construct = f"{f.short}/{name}: pushes and pops are paired at the same loop nesting"
+            a = sorted(id(x) for x in d["append"])
+            b = sorted(id(x) for x in d["pop"])
+            if a == b:
+                ctx.ok(construct, f.loc(), pushes=len(a), pops=len(b))
+            else:
+                ctx.bad(construct, f"{len(d['append'])} push(es) and {len(d['pop'])} pop(s) sit at different loop levels: the stack is unbalanced "
+                        "as soon as the loop runs more or less than once", f.loc())
+
+
+# --------------------------------------------------------------------------- index of an element found in a slice
+def _linear(e: ast.AST, sign: int = 1, out: Optional[Dict[str, int]] = None) -> Optional[Dict[str, int]]:
+    out = {} if out is None else out
+    if isinstance(e, ast.BinOp) and isinstance(e.op, (ast.Add, ast.Sub)):
+        if _linear(e.left, sign, out) is None:
+            return None
+        return _linear(e.right, sign if isinstance(e.op, ast.Add) else -sign, out)
+    if isinstance(e, ast.Constant) and isinstance(e.value, int):
+        out["1"] = out.get("1", 0) + sign * e.value
+        return out
+    if isinstance(e, (ast.Name, ast.Attribute)):
+        k = ast.unparse(e)
+        out[k] = out.get(k, 0) + sign
+        return out
+    return None
+
+
+def slice_enumerate_offset(ctx, quals: Iterable[str]):
+    """`for i, x in enumerate(seq[lo:], start=s)`: an index handed out of the loop (returned) refers to `seq`, so it must be
+    i + lo - s; anything else points `lo - s` elements away from the element that was found."""
+    repo = ctx.repo
+    for q in quals:
+        f = repo.func(q)
+        ctx.analysed(q)
+        for lp in own_nodes(repo, f):
+            if not (isinstance(lp, ast.For) and isinstance(lp.iter, ast.Call) and ast.unparse(lp.iter.func) == "enumerate" and lp.iter.args):
+                continue
+            seq = lp.iter.args[0]
+            if not (isinstance(seq, ast.Subscript) and isinstance(seq.slice, ast.Slice) and seq.slice.lower is not None and seq.slice.step is None):
+                continue
+            start = lp.iter.args[1] if len(lp.iter.args) > 1 else next((k.value for k in lp.iter.keywords if k.arg == "start"), ast.Constant(0))
+            idx = lp.target.elts[0].id if isinstance(lp.target, ast.Tuple) and isinstance(lp.target.elts[0], ast.Name) else None
+            if idx is None:
+                continue
+            want = _linear(ast.BinOp(left=ast.BinOp(left=ast.Name(id=idx), op=ast.Add(), right=seq.slice.lower), op=ast.Sub(), right=start))
+            for r in ast.walk(lp):
+                if isinstance(r, ast.Return) and r.value is not None and any(isinstance(x, ast.Name) and x.id == idx for x in ast.walk(r.value)):
+                    got = _linear(r.value)
+                    construct = f"{f.short}/index found in `{ast.unparse(seq)}` is returned as an index of `{ast.unparse(seq.value)}`"
+                    norm = lambda d: {k: v for k, v in (d or {}).items() if v}
+                    if want is not None and got is not None and norm(want) == norm(got):
+                        ctx.ok(construct, f.loc(r), returned=ast.unparse(r.value))
+                    else:
+                        ctx.bad(construct, f"returns `{ast.unparse(r.value)}` where `{idx} + ({ast.unparse(seq.slice.lower)}) - ({ast.unparse(start)})` "
+                                "is the position in the unsliced list", f.loc(r))
+
+
+# --------------------------------------------------------------------------- errors are not swallowed
+def no_swallowed_errors(ctx, quals: Iterable[str], classes: Tuple[str, ...], why: str, allow=()):
+    """In the given functions no handler catches one of `classes` (or a base of it) and carries on: the handler re-raises,
+    raises another error, or ends the function with a failure result. `allow` lists (function, first statement of the try
+    body) pairs confirmed by reading."""
+    repo = ctx.repo
+    bases = set(classes) | {"Exception", "BaseException", "EnvironmentError", "IOError"} if "OSError" in classes else set(classes) | {"Exception", "BaseException"}
+    for q in quals:
+        f = repo.func(q)
+        ctx.analysed(q)
+        k = 0
+        for t in own_nodes(repo, f):
+            if not isinstance(t, ast.Try):
+                continue
+            for h in t.handlers:
+                names = {"<bare>"} if h.type is None else {ast.unparse(x).split(".")[-1] for x in (h.type.elts if isinstance(h.type, ast.Tuple) else [h.type])}
+                if h.type is not None and not (names & bases):
+                    continue
+                k += 1
+                first = ast.unparse(t.body[0])[:50]
+                construct = f"{f.short}/handler of `{first}` does not swallow {'/'.join(sorted(names))}"
+                leaves = any(isinstance(x, ast.Raise) for x in ast.walk(h)) or (h.body and isinstance(h.body[-1], (ast.Return, ast.Continue, ast.Break)))
+                if leaves or (f.short, first) in allow:
+                    ctx.ok(construct, f.loc(h), nontrivial=False)
+                else:
+                    ctx.bad(construct, f"the handler logs / ignores the error and execution continues: {why}", f.loc(h))
+
+
+# --------------------------------------------------------------------------- names that must keep their original value
+def not_rebound(ctx, qual: str, names: Iterable[str], why: str, until: Optional[str] = None):
+    """The named parameters / locals of the function are bound once (parameters: never re-assigned): later code relies on
+    the value as it arrived."""
+    repo = ctx.repo
+    f = repo.func(qual)
+    ctx.analysed(qual)
+    params = {a.arg for a in f.node.args.args + f.node.args.kwonlyargs}
+    for nm in names:
+        stores = [n for n in own_nodes(repo, f) if isinstance(n, ast.Name) and n.id == nm and isinstance(n.ctx, ast.Store)]
+        limit = 0 if nm in params else 1
+        construct = f"{f.short}/`{nm}` keeps the value it {'arrived with' if nm in params else 'was first given'}"
+        if len(stores) > limit:
+            extra = stores[limit]
+            ctx.bad(construct, f"`{nm}` is re-assigned at line {extra.lineno}: {why}", f.loc(extra))
+        else:
+            ctx.ok(construct, f.loc(), nontrivial=False)
+
+
+# --------------------------------------------------------------------------- Symbol | Choice attribute discipline
+def union_attr_lint(ctx, sites: Iterable[Tuple[str, str]], classes=("Symbol", "Choice"), module="esp_kconfiglib.core"):
+    """A variable that may hold a Symbol or a Choice is only asked for attributes both classes have, unless a type test on
+    that variable guards the access (the classes use __slots__: a missing attribute is an AttributeError)."""
+    repo = ctx.repo
+    members: Dict[str, Set[str]] = {}
+    for c in classes:
+        cls = repo.cls(f"{module}:{c}")
+        ms: Set[str] = set()
+        for st in cls.body:
+            if isinstance(st, (ast.FunctionDef, ast.AsyncFunctionDef)):
+                ms.add(st.name)
+            elif isinstance(st, ast.Assign) and any(isinstance(t, ast.Name) and t.id == "__slots__" for t in st.targets):
+                ms |= {e.value for e in ast.walk(st.value) if isinstance(e, ast.Constant) and isinstance(e.value, str)}
+            elif isinstance(st, ast.Assign):
+                ms |= {t.id for t in st.targets if isinstance(t, ast.Name)}
+            elif isinstance(st, ast.AnnAssign) and isinstance(st.target, ast.Name):
+                ms.add(st.target.id)
+        members[c] = ms
+    common = set.intersection(*members.values()) | {"__class__"}
+    for q, var in sites:
+        f = repo.func(q)
+        ctx.analysed(q)
+        fl = Flow(f.node, resolver=Resolver(f.node)).run()
+        k = 0
+        for n in own_nodes(repo, f):
+            if not (isinstance(n, ast.Attribute) and isinstance(n.value, ast.Name) and n.value.id == var):
+                continue
+            if n.attr in common:
+                continue
+            k += 1
+            owners = [c for c in classes if n.attr in members[c]]
+            construct = f"{f.short}/{var}.{n.attr} #{k} read only where `{var}` is known to be a {' or '.join(owners) or '?'}"
+            gs = fl.guards_at(n) or set()
+            typed = any((f"type({var})" in key or f"isinstance({var}," in key or f"{var}.__class__" in key) for key, pol in gs)
+            if typed:
+                ctx.ok(construct, f.loc(n))
+            else:
+                ctx.bad(construct, f"`{var}` may be a {' or a '.join(c for c in classes if c not in owners)}, which has no attribute `{n.attr}` "
+                        f"(__slots__): AttributeError; guards here: {sorted(gs)[:4]}", f.loc(n))
+
+
+# --------------------------------------------------------------------------- the float validator
+_CHARCLASS = {"isalpha", "isdigit", "isdecimal", "isnumeric", "isalnum", "isascii"}
+
+
+def float_validator_shape(ctx, core="esp_kconfiglib.core"):
+    """is_float() decides by float() and math.isfinite() alone: (a) the argument is converted with float() and the result is
+    tested with math.isfinite() - a literal such as 1e999 parses but overflows to inf, which no generator can emit as a
+    number; (b) no character-class test (isalpha/isdigit/..., or a regular expression without an exponent part) rejects
+    the text first - the writer's normaliser str(float(x)) produces exponent notation (1e-05, 1e+16), which must be
+    accepted again on reload."""
+    repo = ctx.repo
+    f = repo.func(f"{core}:is_float")
+    ctx.analysed(f.qual)
+    param = f.node.args.args[0].arg
+    conv = [n for n in ast.walk(f.node) if isinstance(n, ast.Call) and isinstance(n.func, ast.Name) and n.func.id == "float" and n.args
+            and param in {x.id for x in ast.walk(n.args[0]) if isinstance(x, ast.Name)}]
+    fin = [n for n in ast.walk(f.node) if isinstance(n, ast.Call) and ast.unparse(n.func) in ("math.isfinite", "isfinite")]
+    construct = "is_float/finite after float(): overflowing literals are rejected"
+    if conv and fin:
+        ctx.ok(construct, f.loc(fin[0]))
+    else:
+        ctx.bad(construct, "the value is not converted with float() and tested with math.isfinite(): `1e999` is accepted and becomes inf "
+                "(JSON `Infinity`, `CONFIG_X=inf`)", f.loc())
+    construct = "is_float/no character-class rejection (exponent notation stays valid)"
+    cc = [n for n in ast.walk(f.node) if isinstance(n, ast.Attribute) and n.attr in _CHARCLASS]
+    rx = [n for n in ast.walk(f.node) if isinstance(n, ast.Call) and (ast.unparse(n.func).startswith("re.") or ast.unparse(n.func).endswith(("_match", ".match", ".fullmatch", ".search")))]
+    msgs = []
+    if cc:
+        msgs.append(f"`.{cc[0].attr}()` on the text rejects the `e` of 1e-05")
+    for r in rx:
+        pat = None
+        for a in ast.walk(r):
+            if isinstance(a, ast.Constant) and isinstance(a.value, str):
+                pat = a.value
+        if pat is None:
+            nm = ast.unparse(r.func).split(".")[0]
+            c = repo.resolve_const(core, nm)
+            pat = next((x.value for x in ast.walk(c) if isinstance(x, ast.Constant) and isinstance(x.value, str)), None) if c is not None else None
+        if pat is None or not ("e" in pat.lower().replace("\\d", "")):
+            msgs.append(f"regular expression `{pat}` has no exponent part")
+    (ctx.bad(construct, "; ".join(msgs) + ": a value the normaliser wrote (str(float(x))) is refused on reload", f.loc(cc[0] if cc else rx[0]))
+     if msgs else ctx.ok(construct, f.loc(), nontrivial=False))
+
+
+# --------------------------------------------------------------------------- iterative tree walks visit every node
+def tree_walk_complete(ctx, quals: Iterable[str], why: str):
+    """In an iterative menu-tree walk the step into the children (`node = node.list`) depends on nothing but the presence
+    of children: a walk that skips the subtree of some nodes no longer sees the symbols defined below them, although a
+    symbol below an invisible menu can still have a value (select / imply / set from outside)."""
+    repo = ctx.repo
+    for q in quals:
+        f = repo.func(q)
+        ctx.analysed(q)
+        fl = Flow(f.node, resolver=Resolver(f.node)).run()
+        steps = [n for n in own_nodes(repo, f) if isinstance(n, ast.Assign) and isinstance(n.targets[0], ast.Name)
+                 and ast.unparse(n.value) == f"{n.targets[0].id}.list"]
+        for i, n in enumerate(steps):
+            v = n.targets[0].id
+            construct = f"{f.short}/descent `{v} = {v}.list` #{i + 1} depends only on the presence of children"
+            extra = sorted((k, p) for k, p in (fl.guards_at(n) or set()) if (k != f"{v}.list" or not p) and v in k.replace(f"{v}.list", ""))
+            if extra:
+                ctx.bad(construct, f"the walk descends only under {extra}: {why}", f.loc(n))
+            else:
+                ctx.ok(construct, f.loc(n))
